@@ -27,6 +27,8 @@ def main ():
   except Exception:
     rep.inconclusive_because("harness exception: " +
                              traceback.format_exc()[-1500:])
+  if not __debug__:
+    rep.count("shards_run_with_assertions_stripped")
   if env.LOG_STATS["on"]:
     rep.count("shards_run_with_debug_logging_on")
     rep.count("log_records_formatted", env.LOG_STATS["records"])
